@@ -134,7 +134,7 @@ class Sched:
     def step(self, n):
         if not self.done[n]:
             self.go[n].release()
-            if not self.arr[n].acquire(timeout=150):
+            if not self.arr[n].acquire(timeout=(HANG_S if _hangs[0] == 0 else 20)):
                 raise RuntimeError("scheduler: thread %s did not reach a checkpoint" % n)
 
 
@@ -393,7 +393,7 @@ def do_history(case):
         res = {}
         a.load_model, a._compile_model, a.save_model = load_model, compile_model, save_model
         try:
-            ths = [threading.Thread(target=sched.worker, name=n,
+            ths = [threading.Thread(daemon=True, target=sched.worker, name=n,
                                     args=(n, (lambda n=n, o=o: res.__setitem__(n, transfer(o)))))
                    for n, o in (("A", oa), ("B", ob))]
             for t in ths:
@@ -481,7 +481,7 @@ def do_history(case):
         a.os, a.open = OsProxy(), gopen
         try:
             jobs = (("A", lambda: transfer(o)), ("B", lambda: transfer_opts({"codegen": True})))
-            ths = [threading.Thread(target=sched.worker, name=n, args=(n, (lambda n=n, f=f: res.__setitem__(n, f()))))
+            ths = [threading.Thread(daemon=True, target=sched.worker, name=n, args=(n, (lambda n=n, f=f: res.__setitem__(n, f()))))
                    for n, f in jobs]
             for t in ths:
                 t.start()
@@ -572,10 +572,26 @@ def do_history(case):
                             "written": c.file.written if c.file else None})
                 stamp(before)
             elif op[0] == "two":
-                out.append(two(op[1], op[2], op[3]))
+                try:
+                    out.append(two(op[1], op[2], op[3]))
+                except RuntimeError as e:
+                    if "scheduler" not in str(e):
+                        raise
+                    state["hung"] = True
+                    _hangs[0] += 1
+                    hang = {"out": "Hang", "msg": str(e), "pl": None}
+                    out.append({"A": hang, "B": hang, "save_order": []})
                 stamp(before)
             elif op[0] == "gap":
-                out.append(gap(op[1], op[2]))
+                try:
+                    out.append(gap(op[1], op[2]))
+                except RuntimeError as e:
+                    if "scheduler" not in str(e):
+                        raise
+                    state["hung"] = True
+                    _hangs[0] += 1
+                    hang = {"out": "Hang", "msg": str(e), "pl": None}
+                    out.append({"A": hang, "B": hang, "events": [], "late": False, "savedfirst": False, "removed": False})
                 stamp(before)
             elif op[0] == "reader2":
                 res = {}
@@ -730,7 +746,7 @@ def do_torn(case):
             except BaseException as e:  # noqa
                 res[nm] = "Raised %s" % type(e).__name__
         a.load_model, a.open = load_model, op
-        ths = [threading.Thread(target=sched.worker, name=nm, args=(nm, (lambda nm=nm, o=o: work(nm, o))))
+        ths = [threading.Thread(daemon=True, target=sched.worker, name=nm, args=(nm, (lambda nm=nm, o=o: work(nm, o))))
                for nm, o in (("A", case["oa"]), ("B", case["ob"]))]
         for t in ths:
             t.start()
